@@ -221,10 +221,14 @@ fn gen_str(rng: &mut Rng, prefix: &str, max: usize) -> String {
 }
 
 fn gen_clients(rng: &mut Rng, n: usize, seven: bool) -> Vec<Client> {
+    // In a quarter of the servers several clients share a name (real servers are
+    // full of "nameless tee"s); they still differ in clan / country / score.
+    let shared_names = rng.chance(1, 4);
+    let shared: Vec<String> = (0..3).map(|k| gen_str(rng, &format!("same{}~", k), 15)).collect();
     (0..n)
         .map(|i| Client {
-            // unique by construction: decimal index and a separator that no suffix starts with
-            name: gen_str(rng, &format!("{}~", i), 15),
+            // otherwise unique by construction: decimal index and a separator that no suffix starts with
+            name: if shared_names && rng.chance(1, 2) { rng.pick(&shared).clone() } else { gen_str(rng, &format!("{}~", i), 15) },
             clan: gen_str(rng, "", 11),
             country: match rng.below(3) {
                 0 => -1,
@@ -1562,7 +1566,7 @@ fn merge_case(ctx: &mut Ctx, idx: u64, rng: &mut Rng) {
 
 fn main() {
     let mut ctx = Ctx::from_args("C18");
-    ctx.rule = "parse: one case = one well-formed datagram of kind (index mod 13) from the monitor's own builder, plus all its derived datagrams: every numeric field x {MIN,-1,0,1,max-1,max,max+1,63,64,65,MAX,...} and non-numeric strings, joint sweeps of the four counts, offset/packet number x clients carried with valid counts, hostile strings, truncation at every position, trailing bytes, PRNG bytes after the header, byte mutations (evaluations count every parsed datagram; distinct = hash of the base datagram). merge: one case = one generated server (unique client names) split into k parts as a 64-player legacy (24 per packet, or smaller contiguous packets) or extended info (main + more packets), merged in every ordering of every multiplicity vector (k <= 3 quick / 4 thorough) or in PRNG orderings with repeats; evaluations count schedules; non-trivial = at least two parts, distinct = hash of the part datagrams".into();
+    ctx.rule = "parse: one case = one well-formed datagram of kind (index mod 13) from the monitor's own builder, plus all its derived datagrams: every numeric field x {MIN,-1,0,1,max-1,max,max+1,63,64,65,MAX,...} and non-numeric strings, joint sweeps of the four counts, offset/packet number x clients carried with valid counts, hostile strings, truncation at every position, trailing bytes, PRNG bytes after the header, byte mutations (evaluations count every parsed datagram; distinct = hash of the base datagram). merge: one case = one generated server (unique client names, or in a quarter of the servers several clients sharing a name) split into k parts as a 64-player legacy (24 per packet, or smaller contiguous packets) or extended info (main + more packets), merged in every ordering of every multiplicity vector (k <= 3 quick / 4 thorough) or in PRNG orderings with repeats; evaluations count schedules; non-trivial = at least two parts, distinct = hash of the part datagrams".into();
     ctx.assumptions = vec![
         "a receiver uses the parts as httphook/stats-browser do: the first parsed part is the accumulator, later parts are merge()d into it, completeness is probed with get_info()/take_info(); the result of merge() itself (Ok or an error) is not judged".into(),
         "the parts of one info come from one consistent server: same token and header in every legacy packet, every client in exactly one part, no empty 'more' packet".into(),
